@@ -49,8 +49,10 @@ func Universe(name string, size string, seed int64) []RawKey {
 			// same length and same tail as a stored key, differing only inside the optimistic (non-inlined) part
 			rp(p10 + "012345678Zax"), rp(p10 + "0Z23456789ay"),
 		}
+		// a second key below the 20-byte path: a long compressed path whose child is again an inner node
+		u = append(u, rk(p10+p10+"bx"))
 		if thorough {
-			u = append(u, rk(P12+"y"), rk(p10+p10+"bx"), rp(p10+p10), rp(p10+"01234"))
+			u = append(u, rk(P12+"y"), rk(p10+p10+"by"), rp(p10+p10), rp(p10+"01234"))
 		}
 		return u
 
